@@ -713,7 +713,8 @@ pub fn run(args: &Args) -> i32 {
         use crate::reference::zipbuild::{build, extra_block, Dd, ESpec, Spec};
         let mut specs: Vec<Spec> = vec![];
         for m in [0u16, 8, 12, 93] {
-            for subset in 0..8u8 {
+            // subsets 8..15: additionally the disk start number in the block (fourth field; APPNOTE 4.5.3)
+            for subset in 0..16u8 {
                 for after in [false, true] {
                     for local in [false, true] {
                         for dd in [Dd::None, Dd::Sig64] {
@@ -729,9 +730,15 @@ pub fn run(args: &Args) -> i32 {
                                 central_extra: extra_block(0x7777, b"other"),
                                 ..Default::default()
                             };
-                            let second = ESpec { name: b"second".to_vec(), method: 8, content: b"second entry".to_vec(), zip64_central: subset ^ 7, ..Default::default() };
+                            let second = ESpec { name: b"second".to_vec(), method: 8, content: b"second entry".to_vec(), zip64_central: (subset & 7) ^ 7, ..Default::default() };
                             specs.push(Spec { entries: vec![e.clone()], force_zip64_eocd: subset % 2 == 0, ..Default::default() });
-                            specs.push(Spec { entries: vec![e, second], prefix: vec![0x5a; 17], ..Default::default() });
+                            // prepended data of lengths around the block sizes a scanning reader may use
+                            let plen = [17usize, 4093, 4094, 4095, 4096, 8190, 8191, 65535][(specs.len() / 2) % 8];
+                            specs.push(Spec { entries: vec![e.clone(), second.clone()], prefix: vec![0x5a; plen], ..Default::default() });
+                            if subset & 7 == 7 && !after {
+                                // ... and in front of forced ZIP64 end records
+                                specs.push(Spec { entries: vec![e, second], prefix: vec![0x5a; plen], force_zip64_eocd: true, comment: b"z".to_vec(), ..Default::default() });
+                            }
                         }
                     }
                 }
